@@ -31,7 +31,7 @@ func init() {
 			}
 			return ps
 		},
-		MinObserved: []string{"startups", "dials_after_ready_true", "failing_addresses_checked", "pollers_saw_false_before_true", "served_after_accept_failure_episodes", "served_next_to_silent_tls_peers", "served_while_an_onclose_callback_runs", "served_after_idling_longer_than_the_read_timeout"},
+		MinObserved: []string{"startups", "dials_after_ready_true", "failing_addresses_checked", "pollers_saw_false_before_true", "served_after_accept_failure_episodes", "served_next_to_silent_tls_peers", "served_while_an_onclose_callback_runs", "served_after_idling_longer_than_the_read_timeout", "served_by_a_second_run_after_a_failed_one"},
 	})
 }
 
@@ -387,6 +387,58 @@ func c17Disturbances(c *Ctx) {
 		close(holdClose)
 		osrv.StopWithin(patience)
 
+		// the same Server value is run again after a Run that could not listen (a "try the next port" loop): the second
+		// Run listens, Ready() becomes true - and then a connection must be served like on any other server
+		if blocker, err := net.Listen("tcp", "127.0.0.1:0"); err == nil {
+			again, nerr := newSrv(SrvCfg{})
+			if nerr == nil {
+				bindOK(again.Mux)
+				again.S.Router(again.Mux)
+				first := again.S.Run(blocker.Addr().String())
+				second := make(chan error, 1)
+				addr2 := fmt.Sprintf("127.0.0.1:%d", freePort())
+				if ep%2 == 1 {
+					first = again.S.Run("127.0.0.1") // malformed instead of taken
+				}
+				go func() { second <- again.S.Run(addr2) }()
+				sawReady := false
+				for dl := time.Now().Add(5 * time.Second); time.Now().Before(dl) && !sawReady; time.Sleep(200 * time.Microsecond) {
+					sawReady = again.S.Ready()
+				}
+				switch {
+				case first == nil:
+					c.Violate("Run returned nil for an address it cannot listen on", "first of two Run calls on one server", nil)
+				case sawReady:
+					if err := c17Served(addr2, nil, bound); err != nil {
+						returned := false
+						select {
+						case e := <-second:
+							returned = true
+							second <- e
+						default:
+						}
+						c.Violate("Ready() was true but a connection attempt failed or was not served", fmt.Sprintf("second Run on a server whose first Run had failed (%v): Ready()=true, Stop not called, second Run returned=%v, yet a connection to %s is not served within %s: %v", first, returned, addr2, bound, err), map[string]any{"episode": ep})
+					} else {
+						c.Count("dials_after_ready_true", 1)
+						c.Count("served_by_a_second_run_after_a_failed_one", 1)
+					}
+				default:
+					// the second Run did not come up: allowed only if it says so
+					select {
+					case e := <-second:
+						if e == nil {
+							c.Violate("Run returned nil for an address it cannot listen on", fmt.Sprintf("second Run (%s) on a server whose first Run had failed returned nil without Ready() ever becoming true", addr2), nil)
+						} else {
+							c.Count("served_by_a_second_run_after_a_failed_one", 1) // refused outright: nothing to serve, nothing claimed
+						}
+					case <-time.After(time.Second):
+						c.Inconclusive("second Run neither became ready nor returned")
+					}
+				}
+				again.S.Stop()
+			}
+			blocker.Close()
+		}
 		// a server with a read timeout that sees no connection for longer than that timeout
 		rsrv, err := startSrv(SrvCfg{ReadTimeout: 300 * time.Millisecond}, bindOK)
 		if err != nil {
